@@ -332,6 +332,8 @@ def t_negative():
 	sh = Shard()
 	ks = fixtures.kspec(5, 'AT')
 	with fixtures.workdir('c04n') as d:
+		qsig = os.path.join(d, 'query.gs')
+		fixtures.write_sigfile(qsig, ks, SIGS[:1], ids=['q'], id_attr=None)
 		for attr in ATTRS:
 			for n in range(1, 4):
 				gspecs = genome_specs(n)
@@ -346,15 +348,42 @@ def t_negative():
 						os.unlink(sp)
 					fixtures.write_sigfile(sp, ks, sigs, ids=np.array(ids) if ids and isinstance(ids[0], int) else (ids or None), id_attr=id_attr)
 					sh.evals += 1
-					try:
-						db = ReferenceDatabase.load_from_dir(dbdir)
-					except Exception as ex:
-						sh.nontrivial += 1
-						sh.count('must_fail_' + why)
-						sh.outcome([why, type(ex).__name__])
+					# every way of obtaining a database: load_from_dir, load(two paths), the constructor (what the command line uses), the CLI itself
+					ways = ['load_from_dir', 'load', 'constructor', 'cli-query']
+					for way in ways:
+						try:
+							if way == 'load_from_dir':
+								db = ReferenceDatabase.load_from_dir(dbdir)
+							elif way == 'load':
+								db = ReferenceDatabase.load(os.path.join(dbdir, 'g.gdb'), sp)
+							elif way == 'constructor':
+								from gambit.db import load_genomeset
+								from gambit.sigs.base import load_signatures
+								session, gset = load_genomeset(os.path.join(dbdir, 'g.gdb'))
+								sigobj = load_signatures(sp)
+								try:
+									db = ReferenceDatabase(gset, sigobj)
+								except Exception:
+									sigobj.close(); session.close()
+									raise
+							else:
+								code, stdout, exc, err = fixtures.run_cli(['-d', dbdir, 'query', '--no-progress', '-o', os.path.join(dbdir, 'out.csv'), '-s', qsig])
+								if code == 0:
+									sh.violation('incomplete-database-loaded', dict(attr=attr, n=n, why=why, way=way, file_ids=[str(x) for x in ids]), 'non-zero exit', 'exit 0')
+									return
+								continue
+						except Exception as ex:
+							if way == 'load_from_dir':
+								sh.nontrivial += 1
+								sh.count('must_fail_' + why)
+								sh.outcome([why, type(ex).__name__])
+							continue
+						try:
+							db.signatures.close(); db.session.close()
+						except Exception:
+							pass
+						sh.violation('incomplete-database-loaded', dict(attr=attr, n=n, why=why, way=way, file_ids=[str(x) for x in ids]), 'error', 'loaded')
 						return
-					db.signatures.close(); db.session.close()
-					sh.violation('incomplete-database-loaded', dict(attr=attr, n=n, why=why, file_ids=[str(x) for x in ids]), 'error', 'loaded')
 
 				# every non-empty subset of genome IDs removed, with 0..1 unrelated signatures present
 				for r in range(1, n + 1):
